@@ -12,7 +12,7 @@
 (***************************************************************************)
 EXTENDS PMCollab, Json, IOUtils
 
-Base == Input.base
+Base == Snap(Input.base, <<>>)
 NClients == Input.nclients
 MaxLog == Input.maxLog
 MaxUnconf == Input.maxUnconf
@@ -45,7 +45,7 @@ Init == S = InitState(Base, Clients) /\ hist = <<>>
 Edit(c, s) ==
   /\ Len(S.cl[c].unconf) < MaxUnconf
   /\ LET r == EditRes(S, c, s) IN
-     /\ r.ok /\ Len(r.S.cl[c].doc) <= MaxToks /\ r.S.cl[c].doc # S.cl[c].doc
+     /\ r.ok /\ Len(r.S.cl[c].doc.d) <= MaxToks /\ r.S.cl[c].doc # S.cl[c].doc
      /\ S' = r.S
   /\ hist' = Append(hist, [a |-> "edit", c |-> c, step |-> s])
 Send(c) ==
@@ -57,7 +57,7 @@ Receive(c) ==
   /\ CanReceive(S, c)
   /\ S' = ReceiveRes(S, c).S
   /\ hist' = Append(hist, [a |-> "receive", c |-> c, step |-> NoStep])
-Next == \E c \in Clients : (\E s \in StepU(S.cl[c].doc) : Edit(c, s)) \/ Send(c) \/ Receive(c)
+Next == \E c \in Clients : (\E s \in StepU(S.cl[c].doc.d) : Edit(c, s)) \/ Send(c) \/ Receive(c)
 Spec == Init /\ [][Next]_vars
 
 AuthReplays == AuthReplaysOf(S, Base)
@@ -67,7 +67,7 @@ Converged == ConvergedOf(S)
 ReceiveNeverStuck == NeverStuckOf(S)
 AuthorityAccepts == \A c \in Clients : CanSend(S, c) => SendRes(S, c).ok
 
-Ev == [hist |-> hist, docs |-> [c \in Clients |-> S.cl[c].doc], unconf |-> [c \in Clients |-> Len(S.cl[c].unconf)],
-       versions |-> [c \in Clients |-> S.cl[c].version], auth |-> S.auth.doc]
+Ev == [hist |-> hist, docs |-> [c \in Clients |-> S.cl[c].doc.d], unconf |-> [c \in Clients |-> Len(S.cl[c].unconf)],
+       versions |-> [c \in Clients |-> S.cl[c].version], auth |-> S.auth.doc.d]
 Emit == hist = <<>> \/ PrintT(ToJson(Ev))
 =============================================================================
